@@ -14,6 +14,7 @@ Res == { [outs |-> << >>, err |-> "nil", panic |-> "none"],
          [outs |-> <<Out("o1", "")>>, err |-> "e1", panic |-> "none"],
          [outs |-> << >>, err |-> "we1", panic |-> "none"],
          [outs |-> << >>, err |-> "e2", panic |-> "none"],
+         [outs |-> << >>, err |-> "ce", panic |-> "none"],       \* an error that wraps context.DeadlineExceeded: an error like any other
          [outs |-> << >>, err |-> "nil", panic |-> "value"] }
 Chains == UNION {[1..n -> Names] : n \in 0..MaxChain}
 Scripts == UNION {[1..n -> Res] : n \in 1..2}
